@@ -547,7 +547,7 @@ fn legacy_structural(r: &mut Rng, j: &VJob) -> Vec<Mut> {
         0 => vec![Mut::IdentSet(i, "schema_id", json!(*r.pick(&vw::SCHEMA_IDS)))],
         1 => vec![Mut::IdentSet(i, "cred_def_id", json!(*r.pick(&vw::CD_IDS)))],
         2 => vec![Mut::IdentSet(i, "rev_reg_id", if r.chance(1, 2) { Value::Null } else { json!(vw::REG_ID) })],
-        3 => vec![Mut::IdentSet(i, "timestamp", if r.chance(1, 3) { Value::Null } else { json!(*r.pick(&[100u64, 200, 300, 150])) })],
+        3 => vec![Mut::IdentSet(i, "timestamp", if r.chance(1, 3) { Value::Null } else { json!(*r.pick(&[100u64, 200, 300, 150, 250, 99, 301])) })],
         4 => vec![Mut::IdentDup(i)],
         5 => vec![Mut::IdentDrop(i)],
         6 => vec![Mut::ProofDup(i)],
@@ -575,7 +575,7 @@ fn w3c_structural(r: &mut Rng, j: &VJob) -> Vec<Mut> {
         5 => vec![Mut::WIdent(i, "schema_id", json!(*r.pick(&vw::SCHEMA_IDS)))],
         6 => vec![Mut::WIdent(i, "cred_def_id", json!(*r.pick(&vw::CD_IDS)))],
         7 => vec![Mut::WIdent(i, "rev_reg_id", if r.chance(1, 2) { Value::Null } else { json!(vw::REG_ID) })],
-        8 => vec![Mut::WIdent(i, "timestamp", if r.chance(1, 3) { Value::Null } else { json!(*r.pick(&[100u64, 200, 300])) })],
+        8 => vec![Mut::WIdent(i, "timestamp", if r.chance(1, 3) { Value::Null } else { json!(*r.pick(&[100u64, 200, 300, 150, 250])) })],
         _ => vec![Mut::WMethod(i, r.pick(&vw::CD_IDS).to_string())],
     }
 }
@@ -794,6 +794,9 @@ fn c02_jobs(r: &mut Rng, w: &World, thorough: bool) -> Vec<VJob> {
                                 ("strip-timestamp", vec![Mut::IdentSet(0, "timestamp", Value::Null)]),
                                 ("forge-timestamp-100", vec![Mut::IdentSet(0, "timestamp", json!(100)), Mut::IdentSet(0, "rev_reg_id", json!(vw::REG_ID))]),
                                 ("forge-timestamp-200", vec![Mut::IdentSet(0, "timestamp", json!(200)), Mut::IdentSet(0, "rev_reg_id", json!(vw::REG_ID))]),
+                                ("timestamp-without-list-150", vec![Mut::IdentSet(0, "timestamp", json!(150)), Mut::IdentSet(0, "rev_reg_id", json!(vw::REG_ID))]),
+                                ("timestamp-without-list-250", vec![Mut::IdentSet(0, "timestamp", json!(250)), Mut::IdentSet(0, "rev_reg_id", json!(vw::REG_ID))]),
+                                ("timestamp-without-list-350", vec![Mut::IdentSet(0, "timestamp", json!(350)), Mut::IdentSet(0, "rev_reg_id", json!(vw::REG_ID))]),
                                 ("move-revealed-to-unrevealed", vec![Mut::MoveRef("revealed_attrs", "unrevealed_attrs", "a_name".into())]),
                             ]
                         } else {
@@ -802,6 +805,8 @@ fn c02_jobs(r: &mut Rng, w: &World, thorough: bool) -> Vec<VJob> {
                                 ("strip-timestamp", vec![Mut::WIdent(0, "timestamp", Value::Null)]),
                                 ("forge-timestamp-100", vec![Mut::WIdent(0, "timestamp", json!(100)), Mut::WIdent(0, "rev_reg_id", json!(vw::REG_ID))]),
                                 ("forge-timestamp-200", vec![Mut::WIdent(0, "timestamp", json!(200)), Mut::WIdent(0, "rev_reg_id", json!(vw::REG_ID))]),
+                                ("timestamp-without-list-150", vec![Mut::WIdent(0, "timestamp", json!(150)), Mut::WIdent(0, "rev_reg_id", json!(vw::REG_ID))]),
+                                ("timestamp-without-list-250", vec![Mut::WIdent(0, "timestamp", json!(250)), Mut::WIdent(0, "rev_reg_id", json!(vw::REG_ID))]),
                             ]
                         };
                         for (name, muts) in strategies {
